@@ -39,12 +39,16 @@ LEVEL = "exploration"
 RULE = (
     "functional part: a case is (class label drawn first from operation x {identity, scale, pad, crop-interior, "
     "crop-at-border, affine, chain}, image H x W in 24..240 with aspect up to 4:1, 1 or 3 channels, keypoints incl. "
-    "NaN / border points, max_hw, scale, stride, crop size + centroid, augmentation kwargs, torch seed); dataset part: "
-    "(dataset class x augmentation mode x geometry class drawn as one joint choice, label spec with 1-2 frames of 1-3 "
-    "instances, max_hw / scale / max_stride / crop_hw / anchor / np_chunks, torch seed); cropsize part: (instances, "
+    "NaN / border points, max_hw, scale, stride, crop size + centroid, augmentation kwargs, torch seed), one runner part per "
+    "operation; dataset part: one runner part per (dataset class x augmentation mode), the geometry class {identity, pad-stride, "
+    "sizematch-pad/up/down, scale-down/up, sizematch+scale} drawn first, then a label spec with 1-2 frames of 1-4 instances "
+    "(compact animals incl. at the frame border for the crop datasets), max_hw / scale / max_stride / crop_hw (square and "
+    "non-square) / anchor / np_chunks / RGB or three grayscale videos, torch seed; cropsize part: (instances, "
     "padding, stride, scaling, min_crop_size class).  non-trivial = the geometric transform is not the identity AND at "
-    "least two keypoints that differ in both x and y were read back inside valid content (intensity-only cases, where "
-    "nothing can be read back: the pixels changed and at least two finite keypoints were compared bit for bit; cropsize: "
+    "least two keypoints that differ in both x and y were read back inside valid content (under affine augmentation, which may "
+    "move everything out of frame: were eligible for read-back; the judged= classes count the actual read-backs; a case that "
+    "exposes a violation always counts; intensity-only cases, where "
+    "nothing can be read back: an intensity operation has probability 1 and at least two finite keypoints were compared bit for bit; cropsize: "
     "the largest instance, not min_crop_size, determines the answer or min_crop_size is not a multiple of the stride)"
 )
 ASSUMPTIONS = [
@@ -54,10 +58,12 @@ ASSUMPTIONS = [
     "keypoints * scale (same term as DESIGN C02); at scale 1 the bound is the bare 0.25 px",
     "affine augmentation adds 1.0 output px (the property's 'under one output pixel'): kornia 0.8.3 RandomAffine warps with "
     "align_corners=False while normalising the matrix with the (W-1) convention, a third-party registration error measured "
-    "up to 0.55 output px on the unchanged tree; affine cases keep aspect <= 2:1 and min side >= 32 so that it stays < 0.75",
+    "up to 0.56 of the allowance on the unchanged tree (worst over 5 000 warps); affine cases keep aspect <= 2:1 and min side >= 32 "
+    "because the mismatch grows with |1/(W-1) - 1/(H-1)| * extent",
     "output px of an affine step are converted to input px with the smallest scale of the configured scale range",
     "keypoints closer than 2/r px to the border of a down-scaled image (r < 1) are not judged: anti-aliased down-scaling "
-    "truncates its kernel there and biases the ramp",
+    "truncates its kernel there and biases the ramp; keypoints closer than 1 px to the border of an up-scaled image are not "
+    "judged either (border clamping flattens the ramp in the outermost output pixel)",
     "only keypoints whose sampled mask is > 0.99 are judged (content moved out of frame / into padding / erased is not "
     "registered anywhere); the decoded coordinate is ch/mask so partial zero-padding does not bias it",
     "np_chunks mode stores the image through PIL uint8 with truncation: 1.0 input px extra tolerance when any resampling happened",
@@ -71,7 +77,7 @@ ASSUMPTIONS = [
 
 IMG_NORM = 256.0  # functional float images: value = coordinate / 256 (exact in float32, inside [0,1])
 MASK_OK = 0.99
-BASE_TOL_OUT = 0.25  # output px: bilinear read-back of an anti-aliased / twice interpolated ramp (measured <= 0.06)
+BASE_TOL_OUT = 0.25  # output px: bilinear read-back of an anti-aliased / twice interpolated ramp (measured residual <= 0.09)
 AFFINE_TOL_OUT = 1.0
 DATASETS = ["single", "bottomup", "centroid", "centered"]
 
@@ -156,6 +162,10 @@ class Track:
             self.interior &= inside
             if r[ax] < 1:
                 self.excluded |= ~inside
+            elif r[ax] > 1:
+                # up-scaling clamps at the border: the ramp is flat in the outermost output pixel, which a second
+                # interpolation (crop at a fractional offset, affine) turns into up to 0.125*(r-1) output px
+                self.excluded |= ~((pos[:, ax] >= 1.0) & (pos[:, ax] <= lim[ax] - 1.0))
         self.valid = (lim + 1.0) * r if self.valid is not None else None
         if s != 1.0 or tuple(in_hw) != tuple(out_valid_hw):
             self.identity = False
@@ -189,12 +199,14 @@ def _readback(res, bucket, img3, out, track, norm, must_find=None, idx=None):
     out = np.array(out, dtype=np.float64).reshape(-1, 2)
     judged = []
     worst = None
+    lost = False
     for i in range(ref.shape[0]):
         if np.isnan(ref[i]).any() or not np.isfinite(out[i]).all() or excl[i]:
             continue
         d = _decode(img3, out[i, 0], out[i, 1], norm)
         if d is None or d[2] <= MASK_OK:
-            if must_find is not None and must_find[i]:
+            if must_find is not None and must_find[i] and not lost:
+                lost = True
                 res.fail(
                     f"{bucket}:content-lost",
                     f"keypoint {ref[i].tolist()} -> {np.round(out[i], 3).tolist()} in an output of {img3.shape[2]}x{img3.shape[1]} (w x h): "
@@ -254,11 +266,10 @@ def _functional_pipeline(case):
             stages.append({"name": "sizematcher", "img": img, "kps": kps, "eff": float(eff), "img_in": img_in, "kps_in": kps_in})
         if case.get("scale") is not None:
             img_in, kps_in = img, kps
-            kb = kps.clone()
             img, kps = apply_resizer(img, kps, scale=case["scale"])
             if centroid is not None:
                 centroid = centroid * case["scale"]
-            stages.append({"name": "resizer", "img": img, "kps": kps, "img_in": img_in, "kps_in": kps_in, "arg_intact": _same(kb, kps_in)})
+            stages.append({"name": "resizer", "img": img, "kps": kps, "img_in": img_in, "kps_in": kps_in})
         if case.get("crop") is not None:
             img_in, kps_in = img, kps
             out = generate_crops(img, kps[0, case["crop"]["inst"]], centroid, tuple(case["crop"]["hw"]))
@@ -332,6 +343,7 @@ def eval_functional(case):
     res.cls(case["cls"], f"channels={case['channels']}")
     out = runner.guarded(res, "functional", _run_planes, case, _functional_pipeline(case))
     if out is runner.FAILED:
+        res.nontrivial = True
         return res
     stages, why = out
     if why:
@@ -400,11 +412,8 @@ def eval_functional(case):
                 res.fail(f"{b}:identity-changed-image", f"max_hw {case['max_hw']} equals the image size but the image changed")
         elif name == "resizer":
             s = case["scale"]
-            if not st["arg_intact"]:
-                pass  # C11's business (argument mutation); not judged here
-            ok_h = {int(math.floor(ih * s + 1e-9)), int(math.ceil(ih * s - 1e-9))}
-            ok_w = {int(math.floor(iw * s + 1e-9)), int(math.ceil(iw * s - 1e-9))}
-            if oh not in ok_h or ow not in ok_w:
+            # floor or ceil of H*scale (int(170 * 0.7) is 118 in floating point: "floor" of an exact 119 included)
+            if abs(oh - ih * s) >= 1 + 1e-6 or abs(ow - iw * s) >= 1 + 1e-6:
                 res.fail(f"{b}:size", f"{ih}x{iw} scaled by {s}: output is {oh}x{ow}")
             if s == 1.0 and (not torch.equal(st["img"], st["img_in"]) or not _same(st["kps"], st["kps_in"])):
                 res.fail(f"{b}:identity-changed", "scale 1.0 changed the image or the keypoints")
@@ -442,10 +451,14 @@ def eval_functional(case):
                         if (err > 0.02).any():
                             res.fail(f"{b}:bbox-or-centroid", f"crop {(ch, cw)} about {np.round(cin, 3).tolist()}: crop position ({px:.2f},{py:.2f}) shows source ({d[0]:.3f},{d[1]:.3f}) but the returned {what} is {np.round(corner, 3).tolist()}")
                             break
-            # content must be found for keypoints well inside both the crop and the source frame
+            # content must be found: the crop is centred on the centroid (documented), so a keypoint closer than
+            # half a crop - 2 px to it, lying >= 1 px inside the source content, has to show up in the crop.  Derived
+            # from the INPUT geometry only (a wrong offset cannot hide behind "keypoint is outside the crop").
+            vw_, vh_ = (iw, ih) if track.valid is None else track.valid
             must = (
-                (kout[:, 0] >= 1) & (kout[:, 0] <= cw - 2) & (kout[:, 1] >= 1) & (kout[:, 1] <= ch - 2)
-                & (kin[:, 0] >= 1) & (kin[:, 0] <= iw - 2) & (kin[:, 1] >= 1) & (kin[:, 1] <= ih - 2)
+                (np.abs(kin[:, 0] - cin[0]) <= cw / 2 - 2) & (np.abs(kin[:, 1] - cin[1]) <= ch / 2 - 2)
+                & (kin[:, 0] >= 1) & (kin[:, 0] <= vw_ - 2) & (kin[:, 1] >= 1) & (kin[:, 1] <= vh_ - 2)
+                & track.interior[sel]
             )
             track.identity = False
         elif name == "pad":
@@ -505,17 +518,21 @@ def eval_functional(case):
         _nan_clause(res, b, ref, kout)
         if pixels_ok and not readback_failed and name != "intensity":
             nfail = len(res.failures)
-            judged_final = _readback(res, b, img3, kout, track, IMG_NORM, must_find=must, idx=sel)
+            judged_final = [ref[j] for j in _readback(res, b, img3, kout, track, IMG_NORM, must_find=must, idx=sel)]
             if len(res.failures) > nfail:
                 readback_failed = True  # later stages inherit the error: one bucket per root cause
     res.n_evals = max(1, res.n_evals)
-    res.nontrivial = (not track.identity) and pixels_ok and _spread(track.ref[sel], [j for j in judged_final])
+    res.nontrivial = (not track.identity) and pixels_ok and _spread(judged_final, range(len(judged_final)))
+    if not res.nontrivial and (not track.identity) and pixels_ok and (case.get("geo") or {}).get("affine_p", 0) > 0:
+        # an affine warp may legitimately move everything out of frame: fall back to eligibility of the input
+        elig = [track.ref[j] for j in sel if not np.isnan(track.ref[j]).any() and not track.excluded[j]]
+        res.nontrivial = _spread(elig, range(len(elig)))
     if case.get("intensity") is not None and len(stages) == 2:
-        # intensity-only case: nothing can be read back; non-trivial = pixels really changed and >= 2 finite keypoints compared
-        changed = not torch.equal(stages[1]["img"], stages[1]["img_in"])
-        res.nontrivial = changed and int((~np.isnan(track.ref).any(-1)).sum()) >= 2
+        # intensity-only case: nothing can be read back; non-trivial = an intensity op with p=1 and >= 2 finite keypoints compared
+        res.nontrivial = int((~np.isnan(track.ref).any(-1)).sum()) >= 2
     if any(np.isnan(track.ref).any(-1)):
         res.cls("has_nan_keypoint")
+    res.nontrivial = res.nontrivial or bool(res.failures)  # a case that exposes a violation is not vacuous
     res.cls(f"judged={min(len(judged_final), 4)}{'+' if len(judged_final) >= 4 else ''}")
     return res
 
@@ -725,6 +742,8 @@ def strategy_functional(op_fixed):
             c["crop"] = {"hw": [ch, cw], "inst": draw(st.integers(0, n_inst - 1)), "centroid": [float(ocx), float(ocy)], "at_border": res_border}
             around, radius = (ocx, ocy), (max(1.0, (cw / 2 - 2) / cum), max(1.0, (ch / 2 - 2) / cum))
         kps = _keypoints(draw, st, w, h, n_inst, n_nodes, lo=lo, around=around, radius=radius)
+        if op == "intensity":  # not exactly representable in reduced precision
+            kps = [[None if q is None else [q[0] + 0.1, q[1] + 0.3] for q in inst] for inst in kps]
         if c["crop"] is not None and c["crop"]["inst"] != 0:
             kps[0], kps[c["crop"]["inst"]] = kps[c["crop"]["inst"]], kps[0]
         c["kps"] = kps
@@ -832,8 +851,12 @@ def eval_dataset(case):
         sc = cfg["scale"]
         s_tot = eff * sc
         stride = cfg["max_stride"]
-        h2, w2 = int(math.floor(mh * sc + 1e-9)), int(math.floor(mw * sc + 1e-9))
         up = lambda v: -(-v // stride) * stride  # noqa: E731
+        # scaled canvas: floor of max_hw*scale; when the product is an integer up to float rounding (170*0.7 =
+        # 118.99999999999999) the float floor, one less, is accepted as well
+        h2s = sorted({int(math.floor(mh * sc + 1e-6)), int(mh * sc)}, reverse=True)
+        w2s = sorted({int(math.floor(mw * sc + 1e-6)), int(mw * sc)}, reverse=True)
+        h2, w2 = h2s[0], w2s[0]
         if kind == "centered":
             exp_hw = (up(cfg["crop_hw"][0]), up(cfg["crop_hw"][1]))
         else:
@@ -853,6 +876,11 @@ def eval_dataset(case):
             img_key = "instance_image" if kind == "centered" else "image"
             imgs = [s[img_key] for s in samples]
             C = 3 if cfg["is_rgb"] else 1
+            if kind != "centered" and imgs[0].dim() == 4:
+                for hc in h2s:
+                    for wc in w2s:
+                        if tuple(imgs[0].shape[-2:]) == (up(hc), up(wc)) and tuple(imgs[0].shape[-2:]) != exp_hw:
+                            h2, w2, exp_hw = hc, wc, (up(hc), up(wc))
             if any(tuple(im.shape) != (1, C, exp_hw[0], exp_hw[1]) for im in imgs):
                 res.fail(f"dataset:{kind}:size", f"sample image shape {tuple(imgs[0].shape)}, expected (1,{C},{exp_hw[0]},{exp_hw[1]}) for frame {h}x{w}, max_hw {cfg['max_hw']}, scale {sc}, max_stride {stride}, crop {cfg['crop_hw'] if kind == 'centered' else None}")
                 continue
@@ -879,28 +907,31 @@ def eval_dataset(case):
                     res.fail(f"dataset:{kind}:content-dependent-keypoints", f"'{key}' differs between the x-ramp, y-ramp and mask videos (same labels, same torch seed)")
             ref = lab_c if kind == "centroid" else lab.reshape(-1, 2)
             # tolerance bookkeeping from the contract
-            track = Track(ref)
-            if (mh, mw) != (h, w):
-                hv = h * eff
-                wv = w * eff
-                # integer valid extent: rounding <= 0.5 px (exactly representable products have none)
-                hv_i = [int(math.floor(hv + 0.5)), int(math.ceil(hv - 0.5))]
-                wv_i = [int(math.floor(wv + 0.5)), int(math.ceil(wv - 0.5))]
-                track.resize(ref, eff, (h, w), (hv_i[0], wv_i[0]))
-                if hv_i[0] != hv_i[1] or wv_i[0] != wv_i[1]:
-                    track.tol_steps += 1.0 / track.cum  # tie: either rounding is fine
-            if sc != 1.0:
-                track.valid = (w * eff, h * eff)
-                track.resize(ref * eff, sc, (mh, mw), (h2, w2))
-            if geo_on:
-                g = case["geo"]
-                track.affine(min(g["scale"]) if g.get("scale") else 1.0)
-            if cfg["np_chunks"] and (eff != 1.0 or sc != 1.0 or geo_on or kind == "centered"):
-                track.extra_in += 1.0
-            if mode == "both":
-                track.extra_in += 0.3
-            if kind == "centered" or stride > 1:
-                track.identity = track.identity and exp_hw == (h, w)
+            def make_track(points, h2=h2, w2=w2):
+                tr = Track(points)
+                pts = tr.ref
+                if (mh, mw) != (h, w):
+                    hv = h * eff
+                    wv = w * eff
+                    # integer valid extent: rounding <= 0.5 px (exactly representable products have none)
+                    hv_i = [int(math.floor(hv + 0.5)), int(math.ceil(hv - 0.5))]
+                    wv_i = [int(math.floor(wv + 0.5)), int(math.ceil(wv - 0.5))]
+                    tr.resize(pts, eff, (h, w), (hv_i[0], wv_i[0]))
+                    if hv_i[0] != hv_i[1] or wv_i[0] != wv_i[1]:
+                        tr.tol_steps += 1.0 / tr.cum  # tie: either rounding is fine
+                if sc != 1.0:
+                    tr.valid = (w * eff, h * eff)
+                    tr.resize(pts * eff, sc, (mh, mw), (h2, w2))
+                if geo_on:
+                    g = case["geo"]
+                    tr.affine(min(g["scale"]) if g.get("scale") else 1.0)
+                if cfg["np_chunks"] and (eff != 1.0 or sc != 1.0 or geo_on or kind == "centered"):
+                    tr.extra_in += 1.0
+                if mode == "both":
+                    tr.extra_in += 0.3
+                return tr
+
+            track = make_track(ref)
             b = f"dataset:{kind}:{'aug-' + mode if mode != 'none' else 'plain'}"
             _nan_clause(res, b, ref, kps)
             if mode == "intensity":
@@ -911,8 +942,8 @@ def eval_dataset(case):
                 for k2 in (["instance", "centroid"] if kind == "centered" else ["instances", "centroids"] if kind == "centroid" else ["instances"]):
                     if not _same(plain[k2], samples[0][k2]):
                         res.fail(f"dataset:{kind}:intensity-moved-keypoints", f"'{k2}' {np.round(plain[k2].numpy(), 3).tolist()} -> {np.round(samples[0][k2].numpy(), 3).tolist()} under intensity-only augmentation")
-                if not torch.equal(plain[img_key], samples[0][img_key]) and int((~np.isnan(ref).any(-1)).sum()) >= 2:
-                    any_judged_spread = True  # intensity mode: non-trivial = pixels changed and >= 2 finite keypoints compared
+                if int((~np.isnan(ref).any(-1)).sum()) >= 2:
+                    any_judged_spread = True  # intensity mode: non-trivial = an intensity op with p=1 and >= 2 finite keypoints compared
                 continue
             # content must be found: plain non-cropping datasets, every keypoint >= 2/s px inside the frame
             must = None
@@ -920,23 +951,26 @@ def eval_dataset(case):
                 mrg = max(2.0, 2.0 / s_tot)
                 must = (ref[:, 0] >= mrg) & (ref[:, 0] <= w - 1 - mrg) & (ref[:, 1] >= mrg) & (ref[:, 1] <= h - 1 - mrg)
             elif kind == "centered" and not geo_on:
+                # the crop is centred on the instance's centroid: label keypoints closer than half a crop - 2 px to it
+                # (in sample scale) and inside the frame must be found in the crop (input geometry only)
                 mrg = max(2.0, 2.0 / s_tot)
                 ch, cw = cfg["crop_hw"]
+                c0 = _expected_centroid(lab[0], cfg["anchor"])
                 must = (
                     (ref[:, 0] >= mrg) & (ref[:, 0] <= w - 1 - mrg) & (ref[:, 1] >= mrg) & (ref[:, 1] <= h - 1 - mrg)
-                    & (kps[:, 0] >= 1) & (kps[:, 0] <= cw - 2) & (kps[:, 1] >= 1) & (kps[:, 1] <= ch - 2)
+                    & (np.abs(ref[:, 0] - c0[0]) * s_tot <= cw / 2 - 2) & (np.abs(ref[:, 1] - c0[1]) * s_tot <= ch / 2 - 2)
                 )
             judged = _readback(res, b, img3, kps, track, 1.0, must_find=must)
             if _spread(ref, judged):
                 any_judged_spread = True
+            elif geo_on:
+                # an affine warp may legitimately move everything out of frame: fall back to eligibility of the input
+                elig = [j for j in range(len(ref)) if not np.isnan(ref[j]).any() and not track.excluded[j]]
+                any_judged_spread = any_judged_spread or _spread(ref, elig)
             if kind == "centroid" and not geo_on:
                 # full keypoints of the centroid dataset (not augmented by design, so only without affine)
-                tr2 = Track(lab.reshape(-1, 2))
-                tr2.tol_steps = np.repeat(track.tol_steps.max(0)[None], tr2.ref.shape[0], 0) if track.tol_steps.size else tr2.tol_steps
-                tr2.cum, tr2.extra_in = track.cum, track.extra_in
-                mrg = max(2.0, 2.0 / s_tot)
+                tr2 = make_track(lab.reshape(-1, 2))
                 r2 = tr2.ref
-                tr2.excluded = ~((r2[:, 0] >= mrg) & (r2[:, 0] <= w - 1 - mrg) & (r2[:, 1] >= mrg) & (r2[:, 1] <= h - 1 - mrg)) if s_tot < 1 else tr2.excluded
                 k_all = samples[0]["instances"].numpy().astype(np.float64).reshape(-1, case["n_nodes"], 2)[: len(insts)].reshape(-1, 2)
                 _nan_clause(res, b + ":instances", r2, k_all)
                 j2 = _readback(res, b + ":instances", img3, k_all, tr2, 1.0)
@@ -944,13 +978,17 @@ def eval_dataset(case):
             if kind == "centered" and not geo_on:
                 # the crop is centred where the sample says: 'centroid' (crop coordinates) shows the instance's centroid
                 cexp = _expected_centroid(lab[0], cfg["anchor"])
-                trc = Track(cexp[None])
-                trc.tol_steps = track.tol_steps.max(0)[None] if track.tol_steps.size else trc.tol_steps
-                trc.cum, trc.extra_in = track.cum, track.extra_in
+                trc = make_track(cexp[None])
                 mrg = max(2.0, 2.0 / s_tot)
                 if mrg <= cexp[0] <= w - 1 - mrg and mrg <= cexp[1] <= h - 1 - mrg:
                     cen = samples[0]["centroid"].numpy().astype(np.float64).reshape(-1, 2)
                     _readback(res, b + ":centroid", img3, cen, trc, 1.0, must_find=np.array([True]))
+            # (c) stride padding of the crop: bottom / right only, exact zeros (nothing is resampled after it)
+            if kind == "centered":
+                ch, cw = cfg["crop_hw"]
+                m = np.abs(img3).sum(0)
+                if (m.shape[0] > ch and m[ch:].max() != 0) or (m.shape[1] > cw and m[:, cw:].max() != 0):
+                    res.fail(f"dataset:{kind}:pad-not-bottom-right", f"crop {cfg['crop_hw']} padded to {m.shape}: rows >= {ch} / columns >= {cw} are not all zero")
             # (c) padding only at the bottom / right (no affine, full-frame datasets)
             if kind != "centered" and not geo_on:
                 m = img3[2]
@@ -971,11 +1009,13 @@ def eval_dataset(case):
         res.nontrivial = (nontrivial_geom or mode == "intensity") and any_judged_spread
         return res
     finally:
+        res.nontrivial = res.nontrivial or bool(res.failures)  # a case that exposes a violation is not vacuous
         shutil.rmtree(d, ignore_errors=True)
 
 
 DS_GEOMS = ["identity", "pad-stride", "sizematch-pad", "sizematch-up", "sizematch-down", "scale-down", "scale-up", "sizematch+scale"]
 DS_GEOMS_W = DS_GEOMS + ["sizematch-down", "sizematch-up", "sizematch+scale", "scale-down"]
+
 
 def strategy_dataset(kind_fixed, mode_fixed):
     from hypothesis import strategies as st
@@ -1031,7 +1071,7 @@ def strategy_dataset(kind_fixed, mode_fixed):
         crop_hw = draw(st.sampled_from([[32, 32], [48, 48], [32, 48], [48, 32], [40, 40], [64, 64]]))
         frames = []
         for _ in range(n_frames):
-            n_inst = 1 if kind == "single" else draw(st.integers(1, 3))
+            n_inst = 1 if kind == "single" else draw(st.integers(2, 4)) if kind == "centroid" else draw(st.integers(1, 3))
             fr = []
             for _ in range(n_inst):
                 if kind in ("centered", "centroid") and draw(st.booleans()):
@@ -1121,7 +1161,7 @@ def eval_cropsize(case):
     if out < need - 1e-6 * max(1.0, need):
         sub = "min-crop-size-multiple-of-stride" if (mcs > 0 and mcs % case["stride"] == 0) else "other"
         res.fail(f"cropsize:does-not-cover-largest-instance:{sub}", desc + f"; the largest instance needs {need:.2f}px")
-    res.nontrivial = need > mcs or (mcs % case["stride"] != 0)
+    res.nontrivial = need > mcs or (mcs % case["stride"] != 0) or bool(res.failures)
     return res
 
 
@@ -1183,10 +1223,10 @@ def summarize_dataset(case):
 
 
 FUNC_BUDGET = {  # op -> (quick, thorough, min non-trivial quick, thorough)
-    "sizematcher": (110, 6000, 15, 800), "resizer": (90, 5000, 10, 600), "pad": (40, 2000, 4, 200), "crop": (80, 5000, 10, 600),
-    "geo": (110, 6000, 10, 600), "intensity": (20, 1000, 5, 250), "chain": (170, 9000, 25, 1400),
+    "sizematcher": (160, 6000, 20, 800), "resizer": (130, 5000, 20, 800), "pad": (50, 2000, 5, 200), "crop": (120, 5000, 20, 800),
+    "geo": (160, 6000, 20, 800), "intensity": (24, 1000, 5, 200), "chain": (260, 9000, 40, 1400),
 }
-DS_BUDGET = {"none": (20, 700, 3, 100), "geo": (20, 700, 3, 100), "intensity": (8, 250, 2, 60), "both": (12, 400, 2, 60)}
+DS_BUDGET = {"none": (45, 900, 8, 150), "geo": (45, 900, 7, 120), "intensity": (10, 250, 3, 50), "both": (24, 500, 5, 80)}
 
 
 def parts(tier):
